@@ -9,7 +9,7 @@ export GOFLAGS=-mod=mod GOPROXY=off
 WT=/tmp/seedcheck_$ID
 DEST=/verif/seeded/$ID
 rm -rf "$WT"; git -C /repo worktree prune
-git -C /repo worktree add -q --detach "$WT" HEAD || exit 2
+git -C /repo worktree add -q --detach "$WT" "${SEED_BASE:-HEAD}" || exit 2
 cleanup() { git -C /repo worktree remove --force "$WT" 2>/dev/null; }
 trap cleanup EXIT
 mkdir -p "$DEST"
